@@ -54,10 +54,10 @@ Proof.
   intros st x. unfold fn_escapeChars.
   destruct x as [|a x]; [reflexivity|].
   cbn [length]. replace (Z.eqb (Z.of_nat (S (length x))) 0) with false by (symmetry; apply Z.eqb_neq; lia).
-  cbn [seqc]. rewrite escape_table_is_code.
+  cbn [bindc]. cbv zeta. rewrite escape_table_is_code.
   match goal with |- context [range_loop ?f _ _] => rewrite (loop_rows f escape_table) end; [reflexivity|].
   intros b c rep. cbn [nth_error]. cbv zeta. unfold bytes_count, bytes_replace.
-  destruct (Z.eqb (count_aux [c] b 0) 0) eqn:E; cbn [seqc].
+  destruct (Z.eqb (count_aux [c] b 0) 0) eqn:E.
   - apply Z.eqb_eq in E. rewrite (count1_zero c rep b E). reflexivity.
   - rewrite repl1_all by lia. reflexivity.
 Qed.
@@ -103,36 +103,47 @@ Proof.
   destruct (length (c :: x') <? 6); reflexivity.
 Qed.
 
+(* case analysis on the atoms (variables, string comparisons, oracle results) of a goal between two decision trees *)
+Ltac is_atom b :=
+  first [ is_var b
+        | lazymatch b with
+          | andb _ _ => fail | orb _ _ => fail | negb _ => fail
+          | str_eqb _ _ => idtac
+          | existsb _ _ => idtac
+          | parse_int _ _ => idtac
+          | parse_uint _ _ => idtac
+          | parse_bool _ => idtac
+          | lookup _ _ => idtac
+          | ?f ?a => first [ is_var f | is_var a; is_const f ]
+          end ].
+Ltac crush_trees :=
+  repeat (cbn [bindc negb andb orb fst snd];
+    first [ reflexivity
+          | match goal with
+            | |- context [if ?b then _ else _] => is_atom b; destruct b
+            | |- context [match ?o with Some _ => _ | None => _ end] => is_atom o; destruct o
+            | |- context [andb ?b _] => is_atom b; destruct b
+            | |- context [orb ?b _] => is_atom b; destruct b
+            | |- context [negb ?b] => is_atom b; destruct b
+            end ]).
+
 Theorem cast_code_is_model : forall pf callskip st o x r t, cast_view st o ->
   fn_cast pf callskip st x r t = Ret (cast pf (skip_of st callskip) o x r t).
 Proof.
   intros pf callskip st o x r t (Hn & Hi & Hf & Hb).
   unfold fn_cast, cast, skip_of. rewrite Hn, Hi, Hf, Hb. clear Hn Hi Hf Hb o.
   assert (Ht : negb (str_eqb t []) = match t with [] => false | _ => true end) by (destruct t; reflexivity).
-  rewrite Ht. clear Ht.
+  rewrite Ht. clear Ht. cbv zeta.
   rewrite bool_screen.
   unfold flt_is_nan, flt_is_inf, is_naninf.
-  generalize (match t with [] => false | _ :: _ => true end) as tne.
-  generalize (existsb (str_eqb (to_lower x)) [s "nan"; s "inf"; s "-inf"]) as special.
-  generalize (match x with c :: _ => mem_ascii c (s "tTfF") | [] => false end) as first.
-  generalize (length x <? 6) as short.
-  generalize (match x with [] => false | _ :: _ => true end) as ne.
-  intros ne short first special tne.
-  destruct (g_checkTagToSkip st) as [f|]; cbn [negb];
-    destruct tne; cbn [andb seqc]; try (destruct (callskip t); cbn [seqc]; [reflexivity|]);
-    (destruct r; cbn [negb seqc]; [|reflexivity]);
-    (destruct (g_castNanInf st); cbn [negb andb orb seqc];
-     [|destruct special; cbn [seqc]; [reflexivity|]]);
-    (destruct (g_castToInt st); cbn [seqc];
-     [destruct (parse_int 64 x); cbn [seqc]; [reflexivity|]; destruct (parse_uint 64 x); cbn [seqc]; [reflexivity|]|]);
-    (destruct (g_castToFloat st); cbn [seqc];
-     [destruct (pf x) as [fl|]; cbn [seqc]; try reflexivity;
-      try (rewrite <- Bool.orb_assoc;
-           destruct (str_eqb fl (s "NaN") || (str_eqb fl (s "+Inf") || str_eqb fl (s "-Inf"))); cbn [negb seqc]; try reflexivity)|]);
-    (destruct (g_castToBool st); cbn [andb]; [|reflexivity]);
-    (destruct ne; cbn [andb]; [|reflexivity]); (destruct short; cbn [andb]; [|reflexivity]);
-    (destruct first; [|reflexivity]);
-    (destruct (parse_bool x); reflexivity).
+  destruct (g_checkTagToSkip st) as [f|]; cbn beta iota;
+    try generalize (callskip t) as sk;
+    generalize (match t with [] => false | _ :: _ => true end) as tne;
+    generalize (existsb (str_eqb (to_lower x)) [s "nan"; s "inf"; s "-inf"]) as special;
+    generalize (match x with c :: _ => mem_ascii c (s "tTfF") | [] => false end) as first;
+    generalize (length x <? 6) as short;
+    generalize (match x with [] => false | _ :: _ => true end) as ne;
+    intros; crush_trees.
 Qed.
 
 (* consequence: the translated cast never panics (the only partial operations, the call of a nil function value and
